@@ -185,6 +185,13 @@ def panic_grid(seed=0):
             for la in lats:
                 for d in dates:
                     cases.append(api_case(la, 10.0, 1.0, d, m, ext_json(pol, 48.5), "SpecialRounding"))
+    # substitute latitudes at which the recomputation itself has no sunrise/sunset or no twilight (nearest latitude anywhere in [-90,90])
+    for m in ("Isna", "UmmAlQurra", "Mwl"):
+        for pol in NEAR:
+            for nl in (66.0, 70.0, 90.0, -90.0, -66.6, 55.0, 0.0):
+                for la in (58.3, 39.0, -45.0, 89.0):
+                    for d in ("2022-06-21", "2023-12-21", "2023-03-20"):
+                        cases.append(api_case(la, 10.0, 1.0, d, m, ext_json(pol, nl), "SpecialRounding"))
     return cases
 
 
